@@ -65,7 +65,7 @@ let scripted_path (path : string) (v : bview) : response hres =
   if path = "/fm" then (let r = resp_new (n_of_int 200) in HNormal { r with r_body = BKnown (n_of_int 10, false, plain_reader []) }) else
   (match strip_prefix "/w" path with Some _ -> Some (text 200 vs) | None -> None) |> function Some r -> r | None ->
   if path = "/d" then HDrop
-  else if path = "/p" then text 500 "Server error"      (* the panic is turned into this by HttpServerBuilder::spawn *)
+  else if path = "/p" then text (int_of_n panic_code) (string_of_bytes panic_text)   (* what HttpServerBuilder::spawn turns the panic into: re-read from src/lib.rs on every run and tied to these constants (Tie/ServerTie.v) *)
   else text 404 vs
 let scripted (p : rpayload) (v : bview) : response hres = scripted_path (string_of_bytes p.rp_path) v
 
